@@ -82,8 +82,8 @@ class Memory:
         banks = [bank[:] if bank else None for bank in self.banks]
         roms = (self.roms[0][:], self.roms[1][:])
         if all(banks):
-            bank = banks[self.banks.index(self.memory[3])]
-            rom = roms[self.roms.index(self.memory[0])]
+            bank = banks[[b is self.memory[3] for b in self.banks].index(True)]
+            rom = roms[[r is self.memory[0] for r in self.roms].index(True)]
         else:
             bank = banks[0]
             rom = self.memory[0][:]
